@@ -324,7 +324,9 @@ namespace Pistache::Http::Experimental
         {
             const char* data           = buffer.data() + totalWritten;
             const ssize_t len          = buffer.size() - totalWritten;
-            const ssize_t bytesWritten = ::send(fd, data, len, 0);
+            // MSG_NOSIGNAL: a server that has closed the connection must show up
+            // as an error on this request, not as a SIGPIPE that ends the process
+            const ssize_t bytesWritten = ::send(fd, data, len, MSG_NOSIGNAL);
             if (bytesWritten < 0)
             {
                 if (errno == EAGAIN || errno == EWOULDBLOCK)
